@@ -132,6 +132,8 @@ def check_object(s, where):
     if bad_inf.any() or (np.abs(lw[fin] - ref_lw[fin]) > 4 * eps * scale[fin]).any():
         i = int(np.argmax(np.where(fin, np.abs(lw - np.where(fin, ref_lw, 0)) / scale, 1e300 * bad_inf)))
         v.append({"mech": "C02/log_w-not-ll+lp-lq", "detail": f"{where}: i={i} log_w={lw[i]!r} ref={ref_lw[i]!r} n={n}"})
+    if not np.isfinite(lw).any():
+        return  # every weight is zero: evidence and ESS are not defined (a selection made by this harness, not a generated vector)
     R = ref_functionals(lw)
     # (2) log evidence
     lz = float(to_np(s.log_evidence))
@@ -207,7 +209,7 @@ def run_case(case):
     g = np.random.default_rng(case["seed"])
     STATE["viol"] = []
     STATE["evals"] = 0
-    counters = {"recomputed_in_place": 0, "vectors": 0, "rejection_checked": 0, "rejection_border_skipped": 0, "ess_helper_checked": 0, "outside_exp_range": 0, "with_neginf": 0}
+    counters = {"rechecked_after_readonly_ops": 0, "recomputed_in_place": 0, "vectors": 0, "rejection_checked": 0, "rejection_border_skipped": 0, "ess_helper_checked": 0, "outside_exp_range": 0, "with_neginf": 0}
     nontrivial = set()
     sample = None
     for j in range(case["n_vec"]):
@@ -274,6 +276,15 @@ def run_case(case):
                         gl = np.asarray(to_np(out.log_likelihood), dtype=float)
                         if not np.array_equal(gl, np.asarray(to_np(s.log_likelihood), dtype=float)[keep]):
                             STATE["viol"].append({"mech": "C02/rejection-fields-misaligned", "detail": "log_likelihood rows differ from the kept rows"})
+            # operations that only read the weights (rejection sampling of the set and of a selection of it, the derived
+            # properties evaluated above) must leave the set as compute_weights() left it
+            if n >= 4:
+                s[1 : 1 + n // 2].rejection_sample(rng=RngProxy(int(g.integers(2**31))))
+            before = len(STATE["viol"])
+            check_object(s, "after rejection_sample (whole set and a selection)")
+            for v in STATE["viol"][before:]:
+                v["mech"] = v["mech"].replace("C02/", "C02/after-read-only-operations/")
+            counters["rechecked_after_readonly_ops"] += 1
         # helper functions on a raw vector
         if j % 3 == 0:
             arr = xp.asarray(lw[np.isfinite(lw)].astype(dt))
